@@ -206,9 +206,55 @@ def check_properties(prop):
     names = [(m.group(1), m.group(2), src[:m.start()].count("\n") + 1) for m in THM_RE.finditer(src)]
     theorems = [n for k, n, _ in names if k != "Example"]
     examples = [n for k, n, _ in names if k == "Example"]
-    rc, log = sh(["timeout", str(COQC_TIMEOUT), "coqc", "-Q", ".", "SqfsV", f], cwd=COQ)
+    # The obligation "Properties_<prop>.v compiles against the current models" is re-established on every run.  When
+    # neither the property file nor any .v file of its dependency closure changed since the last successful compile
+    # (content hash), every closure .vo exists and is not older than its source, and the compiled Properties_<prop>.vo
+    # is not older than any of them, the kernel already accepted exactly these sources: the recorded coqc output is
+    # reused instead of spending 20-60 s on recompiling the same text (VERIF_NO_PROPCACHE=1 forces the compile).
+    key, fresh = None, False
+    cache_p = os.path.join(VERIF, ".cache", "propcache", prop + ".json")
+    try:
+        closure = prop_closure(prop)
+        h = hashlib.sha256()
+        newest = 0.0
+        fresh = True
+        for rel in closure:
+            pv = os.path.join(COQ, rel)
+            h.update(rel.encode()); h.update(open(pv, "rb").read())
+            if rel != f:
+                pvo = pv + "o"
+                if not os.path.exists(pvo) or os.path.getmtime(pvo) < os.path.getmtime(pv):
+                    fresh = False
+                else:
+                    newest = max(newest, os.path.getmtime(pvo))
+        key = h.hexdigest()
+        pvo = path + "o"
+        if not os.path.exists(pvo) or os.path.getmtime(pvo) < newest or os.path.getmtime(pvo) < os.path.getmtime(path):
+            fresh = False
+    except OSError:
+        fresh = False
+    cached = None
+    if fresh and os.environ.get("VERIF_NO_PROPCACHE") != "1" and os.path.exists(cache_p):
+        try:
+            c = json.load(open(cache_p))
+            if c.get("key") == key and c.get("rc") == 0:
+                cached = c
+        except (OSError, ValueError):
+            cached = None
+    if cached is not None:
+        rc, log = 0, cached["log"]
+    else:
+        rc, log = sh(["timeout", str(COQC_TIMEOUT), "coqc", "-Q", ".", "SqfsV", f], cwd=COQ)
+        if rc == 0 and key is not None:
+            try:
+                os.makedirs(os.path.dirname(cache_p), exist_ok=True)
+                json.dump(dict(key=key, rc=0, log=log, compiled_at=time.time()), open(cache_p, "w"))
+            except OSError:
+                pass
     res = dict(file=f, theorems=theorems, examples=examples, obligations=len(theorems) + len(examples),
-               ok=(rc == 0), log=log[-6000:], failed=None)
+               ok=(rc == 0), log=log[-6000:], failed=None,
+               compile=("reused: sources of the whole dependency closure unchanged since the compile of %s"
+                        % time.strftime("%Y-%m-%dT%H:%M:%S", time.localtime(cached["compiled_at"])) if cached is not None else "compiled in this run"))
     if rc == 0:
         res["discharged"] = res["obligations"]
     else:
@@ -228,6 +274,8 @@ def check_properties(prop):
         res["failed"] = failed or "(dependency of %s does not compile)" % f
     # Print Assumptions output
     axioms = set()
+    log_full = cached["log"] if cached is not None else log
+    log = log_full
     closed = log.count("Closed under the global context")
     for m in re.finditer(r"^([A-Za-z0-9_.']+)\s*:", log, re.M):
         nm = m.group(1)
@@ -392,6 +440,7 @@ def prepare_proofs(ctx):
     ctx.coverage.update(obligations=res["obligations"], discharged=res["discharged"],
                         checker_cmd="cd coq && make -k -j16 && coqc -Q . SqfsV %s (Print Assumptions after every theorem)" % res["file"],
                         theorems=res["theorems"], examples=res["examples"], coq_files=res["files"],
+                        properties_compile=res.get("compile"),
                         print_assumptions=dict(closed_under_global_context=res["closed"], axioms=res["axioms"]))
     if ctx.tier == "thorough" and res["ok"] and os.environ.get("VERIF_NO_COQCHK") != "1":
         t = time.time()
